@@ -77,12 +77,11 @@ class BitsSystem(System):
     def nontrivial(self, cfg, pre, ev, obs, post):
         return pre.model != post.model or obs[0] == "exc"
 
-    def check(self, cfg, pre, ev, obs, post, props):
+    def check_step(self, cfg, pre, ev, obs, post, props):
         if "C20" not in props:
             return []
         out = []
         n = cfg["n"]
-        b, m = post.impl, post.model
 
         def bad(oracle, detail):
             out.append(Violation("C20", oracle, detail))
@@ -107,6 +106,18 @@ class BitsSystem(System):
                     allowed.add("ValueError")
                 if obs[0] != "exc" or obs[1] not in allowed:
                     bad("bits.invalid_write_rejected", {"ev": ev, "obs": obs, "allowed": sorted(allowed)})
+        return out
+
+    def check_state(self, cfg, pre, ev, obs, post, props):
+        if "C20" not in props:
+            return []
+        out = []
+        n = cfg["n"]
+        b, m = post.impl, post.model
+
+        def bad(oracle, detail):
+            out.append(Violation("C20", oracle, detail))
+
         # readers agree with the model on every position
         for i in range(n):
             r1 = call(b.check_bit, i)
